@@ -1207,7 +1207,7 @@ def flw8(ctx):
 # ---------------------------------------------------------------- FLW-9 refusal guards read the word being edited
 
 
-def _root_name(e):
+def _root_name(e, want_ty=None):
     e = hirq.strip(e)
     while True:
         k = e.get("e")
@@ -1217,7 +1217,11 @@ def _root_name(e):
             e = hirq.strip(e["recv"])
         else:
             break
-    return e.get("local") if e.get("e") == "path" else None
+    if e.get("e") != "path" or "local" not in e:
+        return None
+    if want_ty and want_ty not in (e.get("ty") or ""):
+        return None
+    return e["local"]
 
 
 UNWITNESSED_9 = {
@@ -1256,13 +1260,14 @@ def flw9(ctx):
             for st in hirq.stmts_after(blk, node):
                 for m in hirq.walk(st):
                     if m["e"] == "mcall" and m["name"] in ("remove", "remove_syll", "pop_back", "pop_front", "drain", "truncate", "clear", "swap_remove"):
-                        edited = _root_name(m["recv"])
-                        break
+                        edited = _root_name(m["recv"], "asca::word::Word")
+                        if edited:
+                            break
                 if edited:
                     break
             if not edited:
                 continue
-            roots = {_root_name(m["recv"]) for m in hirq.walk(node["cond"]) if m["e"] == "mcall" and m["name"] in ("len", "is_empty")}
+            roots = {_root_name(m["recv"], "asca::word::Word") for m in hirq.walk(node["cond"]) if m["e"] == "mcall" and m["name"] in ("len", "is_empty")}
             roots.discard(None)
             k = ordinal.get(which, 0)
             ordinal[which] = k + 1
@@ -1281,4 +1286,95 @@ def flw9(ctx):
                          % ("`, `".join(stale), edited))
     if n < 6:
         raise AnchorMissing("only %d DeletionOnly* guards followed by a removal found" % n)
+    return r
+
+
+# ---------------------------------------------------------------- VAR-1 a syllable variable matches only an identical syllable
+
+
+def var1(ctx):
+    r = RuleResult("VAR-1", "a syllable variable compares segments, stress and tone of the current syllable with the captured one (segments only where modifiers restate stress/tone)", floor=4)
+    lib = ctx.lib
+    SYL_FIELDS = {f["name"] for f in ctx.adt(lib, "asca::syll::Syllable")["variants"][0]["fields"]}
+    for fpath in ("asca::subrule::SubRule::context_match_syll_var", "asca::subrule::SubRule::input_match_syll_var"):
+        b = ctx.fn(lib, fpath)
+        root = b.hir["body"]
+        # the captured syllable parameter and everything let-derived from it
+        cap = [n for n, t in zip(b.param_names, b.param_tys) if t == "&asca::syll::Syllable"]
+        if len(cap) != 1:
+            raise AnchorMissing("%s: captured-syllable parameter not found" % fpath)
+        cap = {cap[0]}
+        changed = True
+        while changed:
+            changed = False
+            for n in hirq.walk(root):
+                if n["e"] == "let" and n["pat"].get("p") == "bind" and n.get("init") is not None and n["pat"]["name"] not in cap:
+                    if any(m["e"] == "path" and m.get("local") in cap for m in hirq.walk(n["init"])):
+                        cap.add(n["pat"]["name"])
+                        changed = True
+        # the `if let Some(..) = mods` split
+        split = None
+        for n in hirq.walk(root):
+            if n["e"] == "if":
+                c = hirq.strip(n["cond"])
+                if c.get("e") == "letcond" and hirq.strip(c["init"]).get("local") == "mods":
+                    split = n
+                    break
+        if split is None:
+            raise AnchorMissing("%s: `if let Some(..) = mods` not found" % fpath)
+        with_ids = {id(x) for x in hirq.walk(split["then"])}
+        else_ids = {id(x) for x in hirq.walk(split["else"])} if split.get("else") is not None else set()
+
+        def fields_of(cmp):
+            """fields of the syllable this `!=` / `==` compares between the current and the captured syllable"""
+            sides = [hirq.strip(cmp["a"]), hirq.strip(cmp["b"])]
+            roots = []
+            flds = []
+            whole_tys = []
+            for sd in sides:
+                whole = sd
+                while whole.get("e") in ("unary", "addr"):
+                    whole = hirq.strip(whole["a"])
+                if whole.get("e") == "path" and "local" in whole:
+                    roots.append(whole["local"])
+                    flds.append(None)
+                    whole_tys.append(whole.get("ty") or "")
+                elif whole.get("e") == "field":
+                    base = hirq.strip(whole["a"])
+                    while base.get("e") in ("unary", "addr"):
+                        base = hirq.strip(base["a"])
+                    roots.append(base.get("local"))
+                    flds.append(whole["name"])
+                else:
+                    roots.append(None)
+                    flds.append(None)
+            if sum(1 for x in roots if x in cap) != 1 or None in roots:
+                return set()
+            # whole-syllable comparison (both sides typed Syllable) covers every field
+            named = [f for f in flds if f]
+            if not named:
+                return set(SYL_FIELDS) if whole_tys and all(t.lstrip("&").replace("mut ", "") == "asca::syll::Syllable" for t in whole_tys) else set()
+            return {named[0]} if named[0] in SYL_FIELDS else set()
+
+        cov = {"common": set(), "with": set(), "without": set()}
+        for n in hirq.walk(root):
+            if n["e"] == "binary" and n["op"] in ("Ne", "Eq"):
+                fs = fields_of(n)
+                if not fs:
+                    continue
+                where = "with" if id(n) in with_ids else ("without" if id(n) in else_ids else "common")
+                cov[where] |= fs
+        short = fpath.rsplit("::", 1)[-1]
+        without = cov["common"] | cov["without"]
+        withm = cov["common"] | cov["with"]
+        ok1 = SYL_FIELDS <= without
+        r.inst("%s: without modifiers compares %s of the captured syllable" % (short, sorted(without)), fn_loc(b, split["ln"]), "ok" if ok1 else "report")
+        if not ok1:
+            r.report("VAR-1|%s|plain" % fpath, fn_loc(b, split["ln"]), fpath,
+                     "a syllable variable without modifiers is accepted without comparing %s with the captured syllable: it matches a syllable that is not identical to the one it captured"
+                     % sorted(SYL_FIELDS - without))
+        ok2 = "segments" in withm
+        r.inst("%s: with modifiers compares %s of the captured syllable" % (short, sorted(withm)), fn_loc(b, split["ln"]), "ok" if ok2 else "report")
+        if not ok2:
+            r.report("VAR-1|%s|with-mods" % fpath, fn_loc(b, split["ln"]), fpath, "a syllable variable with modifiers is accepted without comparing the segments with the captured syllable")
     return r
